@@ -21,7 +21,6 @@ import (
 	"github.com/AdguardTeam/AdGuardDNS/internal/agdnet"
 	"github.com/AdguardTeam/AdGuardDNS/internal/dnsmsg"
 	"github.com/AdguardTeam/AdGuardDNS/internal/dnsserver"
-	"github.com/AdguardTeam/AdGuardDNS/internal/dnssvc"
 	"github.com/AdguardTeam/AdGuardDNS/internal/ecscache"
 	"github.com/AdguardTeam/AdGuardDNS/internal/geoip"
 	"github.com/AdguardTeam/AdGuardDNS/verifh/hlib"
@@ -388,7 +387,7 @@ func newRunner(g *geoTab, ecsCount, noECSCount int) (rn *runner) {
 		return rn.geo.subnet(l, fam)
 	}
 	rn.st = stack.New(&stack.Config{
-		Cache:     &dnssvc.CacheConfig{Type: dnssvc.CacheTypeECS, ECSCount: ecsCount, NoECSCount: noECSCount},
+		Cache:     cacheConfFromYAML(ecsCount, noECSCount),
 		GeoData:   geoData,
 		GeoSubnet: geoSubnet,
 		Upstream: dnsserver.HandlerFunc(func(ctx context.Context, rw dnsserver.ResponseWriter, req *dns.Msg) error {
@@ -404,7 +403,7 @@ func newRunner(g *geoTab, ecsCount, noECSCount int) (rn *runner) {
 		}),
 	})
 	rn.twin = stack.New(&stack.Config{
-		Cache:     &dnssvc.CacheConfig{Type: dnssvc.CacheTypeECS, ECSCount: 10, NoECSCount: 10},
+		Cache:     cacheConfFromYAML(10, 10),
 		GeoData:   geoData,
 		GeoSubnet: geoSubnet,
 		Upstream: dnsserver.HandlerFunc(func(ctx context.Context, rw dnsserver.ResponseWriter, req *dns.Msg) error {
@@ -780,6 +779,17 @@ func oracle(sc *scenario, os []obs, count func(string)) (vs []violation) {
 			add("panic", "request %d panicked: %v", i, o.Panic)
 
 			continue
+		}
+		// --- the server around the handler (round 4): it answers every error of
+		// the handler with a SERVFAIL, which follows (plain DNS, DoT, DNSCrypt) or
+		// replaces (DoH, DoQ) whatever the handler has written: a response that
+		// comes with an error is not what the client gets.
+		if o.Resp != nil && o.Err != nil {
+			if o.Resp.Rcode == dns.RcodeFormatError {
+				add("formerr-followed-by-servfail", "request %d: FORMERR written and error %q returned: the server adds a SERVFAIL", i, o.Err)
+			} else {
+				add("response-followed-by-servfail", "request %d: %s written and error %q returned: the server adds a SERVFAIL", i, rcodeOf(o.Resp), o.Err)
+			}
 		}
 		if cls == ecsAmbiguous {
 			// The property does not say whether this shape is valid; it is
@@ -1854,6 +1864,9 @@ func main() {
 	geoRefreshCampaign(r, m, o.Rand("geoip-refresh"), nDB/2, 6)
 	fixedCases(r, m)
 	unitCampaign(r, m)
+	// Round 4: the configuration file and the wire.
+	builderCampaign(r, m)
+	transportCampaign(r, m, o.Thorough())
 	if o.Thorough() {
 		exhaustiveSmall(r, m)
 	}
